@@ -184,7 +184,7 @@ C18 = Prop(
     "C18", "own", ["NitroVerif.Props.C18"], gen_c18,
     rule="quaint_ptr: pool of 4 pointers + a std::vector<quaint_ptr>; exhaustive: all histories of depth <=3 over a "
          "35-operation alphabet (create with 3 payload types, move-assign incl. self and to/from vector cells, reset, "
-         "assign nullptr, push into the vector (reallocations included), pop, swap); optional: pool of 3, all histories "
+         "assign nullptr, push into the vector (reallocations included), pop, swap - qualified std::swap and the unqualified call after using std::swap); optional: pool of 3, all histories "
          "of depth <=3 over 31 operations (assign value by const&/&&, copy-assign, copy-construct, assign empty, read); "
          "seeded random histories up to 80 / 40 operations. Compared: which object every cell owns, the destructor log "
          "(object, static type of the destructor that ran) after every step and at the end, live-instance counts, "
